@@ -5,6 +5,7 @@ RULE = ('119 catalogue dictionaries (raw content of length 8..3072; structured w
         'longer than the window, the dictionary itself) x dictIDFlag x 7 decompression supplies (usingDict, DDict, loadDictionary, refDDict, refPrefix, multi-DDict table with 2 / 9 '
         'entries); oracles: both sides agree on loading, ID queries agree, frame carries the ID, reference decoder + conformance with the dictionary, round trip, wrong-ID dictionary '
         'refused; third unit: multi-DDict tables whose IDs collide on the last / first slots of the 64-entry table, with 0/16/32 filler dictionaries (growth), one-shot and streaming; second unit: every single-byte corruption (6 values) of the first 220 bytes of each structured dictionary on both sides under ASan/UBSan; '
+        'fifth unit (far into the frame): 3 / 5 / 9 incompressible 128 KiB blocks (emitted raw), then a block copying from the dictionary content and from the first blocks (offsets 2^18 .. 2^20: codes a dictionary table vetted for a first block may lack) x every loadable structured dictionary x {usingDict, refCDict, loadDictionary} x levels {1, 3, 5}; '
         'distinct = distinct frames; non-trivial = frame smaller than input')
 SRC = ['harness/c08_dict.c', 'ref/edu_decoder.c']
 
@@ -14,6 +15,8 @@ def run(vc, tier):
     dicts = vc.catalogue(tier, kind='dicts')
     r1 = c.run_vx_unit('c08-roundtrip', SRC, 'asan', ['--mode', 0, '--dicts', dicts, '--D', 0], share=0.6)
     c.run_vx_unit('c08-rawcontent', SRC, 'asan', ['--mode', 3, '--dicts', dicts, '--D', 0], share=0.4)
+    r5 = c.run_vx_unit('c08-far', SRC, 'asan', ['--mode', 4, '--dicts', dicts, '--D', 0, '--exec-timeout', 60000], share=0.4)
+    c.extra['far_frames_with_offsets_beyond_2^18'] = r5.stats.get('far_frames_with_offsets_beyond_2^18', 0)
     r2 = c.run_vx_unit('c08-corrupt', SRC, 'asan', ['--mode', 1, '--dicts', dicts, '--D', 0], share=0.9)
     c.run_vx_unit('c08-hashset', SRC, 'asan', ['--mode', 2, '--dicts', dicts, '--D', 0], share=0.9)
     c.extra['frames_with_matches_into_dictionary'] = r1.stats.get('frames_with_matches_into_dictionary', 0)
